@@ -74,6 +74,21 @@ func VerifC09Executor() {
 	orig := NewStoreModuleExecutor(NewBaseExecutor(ctx, "s", 0, nil, false, nil, nil, "", nil), a.(store.DeltaAccessor))
 	cached := NewStoreModuleExecutor(NewBaseExecutor(ctx, "s", 0, nil, false, nil, nil, "", nil), b.(store.DeltaAccessor))
 
+	if sym.Param("PRESTATE", 0) == 1 {
+		// the same pre-block content in both stores, built in opposite key orders: nothing a
+		// store reports may depend on the iteration order of its map (Go randomises it; the
+		// executor iterates in insertion order, so opposite orders stand for "any two orders")
+		for i, k := range c09Keys {
+			a.SetBytes(uint64(i+1), k, []byte{byte('0' + i)})
+			b.SetBytes(uint64(len(c09Keys)-i), k, []byte{byte('0' + i)})
+		}
+		if a.Flush() != nil || b.Flush() != nil {
+			sym.Unreachable("pre-state-ok")
+			return
+		}
+		a.Reset()
+		b.Reset()
+	}
 	for blk := 0; blk < nBlocks; blk++ {
 		n := 1 + sym.Choice("nops", maxOps)
 		for i := 0; i < n; i++ {
